@@ -290,6 +290,16 @@ class Delete:
 
         self.ignore_missing = ignore_missing
 
+    @staticmethod
+    def _is_missing(dest, arg, exc, scope):
+        if isinstance(exc, (LookupError, AttributeError, ValueError)):
+            return True  # no such key / index / attribute, non-integer "index"
+        try:  # any other failure: missing only if there is nothing to read either
+            scope[TargetRegistry].get_handler('get', dest)(dest, arg)
+        except Exception:
+            return True
+        return False
+
     def _del_one(self, dest, op, arg, scope):
         if op == '[':
             try:
@@ -308,7 +318,10 @@ class Delete:
             try:
                 _delete(dest, arg)
             except Exception as e:
-                if not self.ignore_missing:
+                # ignore_missing is about elements that are not there (no such
+                # key / index / attribute, a non-integer "index"): a deletion
+                # that the container refuses is still an error
+                if not (self.ignore_missing and self._is_missing(dest, arg, e, scope)):
                     raise PathDeleteError(e, self.path, arg)
 
     def glomit(self, target, scope):
